@@ -1,6 +1,8 @@
 package main
 
 import (
+	"io/ioutil"
+	"path/filepath"
 	"fmt"
 	"strings"
 
@@ -242,9 +244,30 @@ func runTableCase(c *ctx, t *tableCase, qs []string, hist map[string]int) {
 		rd, ores := openReader(data)
 		parts = append(parts, ores)
 		if rd != nil {
-			parts = append(parts, runQuery(rd, "sr:"), runQuery(rd, fmt.Sprintf("sl::%d", ^uint64(0))))
+			// the same table through the file block source (what a Stack uses): every answer must be
+			// the one the memory-backed reader gives
+			var frd *reftable.Reader
+			fn := filepath.Join(c.work, "tbl.ref")
+			if err := ioutil.WriteFile(fn, data, 0644); err == nil {
+				if bs, err := reftable.NewFileBlockSource(fn); err == nil {
+					if r2, err := reftable.NewReader(bs, fn); err == nil {
+						frd = r2
+						defer frd.Close()
+					}
+				}
+			}
+			both := func(q string) string {
+				a := runQuery(rd, q)
+				if frd != nil {
+					if b := runQuery(frd, q); b != a {
+						return "file-backed-reader-differs(" + b + ")"
+					}
+				}
+				return a
+			}
+			parts = append(parts, both("sr:"), both(fmt.Sprintf("sl::%d", ^uint64(0))))
 			for _, q := range qs {
-				parts = append(parts, runQuery(rd, q))
+				parts = append(parts, both(q))
 			}
 			hist[fmt.Sprintf("refs=%s logs=%s blocks~%d", bucket(len(t.refs)), bucket(len(t.logs)), blockClass(len(data), t.cfg.BlockSize))]++
 		}
